@@ -6,4 +6,4 @@ c=$(mktemp -d /tmp/checkdiff.XXXXXX); trap 'rm -rf "$c"' EXIT
 (cd /repo && git ls-files -z | xargs -0 cp --parents -t "$c") 2>/dev/null; cp /repo/go.sum "$c/" 2>/dev/null
 (cd "$c" && git apply "$p") || { echo "patch does not apply"; exit 3; }
 if [ $# -eq 0 ]; then set -- -prop ALL; fi
-"$VERIF/bin/lungocheck" "$@" -repo "$c" -out "$VERIF" 2>&1 | grep -E "^PROP .* VIOLATED|^RULE|UNANALYSABLE|UNDECIDED" | grep -v "NUM-3 VIOLATED bsonkit\.\(Add\|Mul\)\|SEM-5 VIOLATED conversion safe\|VIOLATED bsonkit.put:" | cut -c1-${WIDTH:-500}
+"$VERIF/bin/lungocheck" "$@" -repo "$c" -out "$VERIF" 2>&1 | grep -E "^PROP .* VIOLATED|^RULE|UNANALYSABLE|UNDECIDED|VIOLATION property|\] VIOLATED" | grep -v "NUM-3 VIOLATED bsonkit\.\(Add\|Mul\)\|SEM-5 VIOLATED conversion safe\|VIOLATED bsonkit.put:" | cut -c1-${WIDTH:-500}
